@@ -125,7 +125,7 @@ static const char* const IP4S[] = {"1.2.3.4", "255.255.255.255", "0.0.0.0", "10.
 static const char* const IP6S[] = {"::1", "::", "1:2:3:4:5:6:7:8", "1:2:3:4:5:6:1.2.3.4", "::ffff:1.2.3.4", "ABCD::EF01", "1::8", "1:2::7:8", "::2:3:4:5:6:7:8",
     "1:2:3:4:5:6:7::", "fe80::1", "::1.2.3.4", "1::1.2.3.4", "a:b:c:d:e:f:0:1", "0:0:0:0:0:0:0:0", "FFFF:ffff:FfFf:0:00:000:0000:1", "1:2:3:4:5::1.2.3.4", "::255.255.255.255"};
 static const char* const FUTURES[] = {"v1.x", "vF.a:b", "V7.AbC", "v0.!$&'()*+,;=", "vabc.DEF", "v1.~"};
-static const char* const PORTS[] = {"", "80", "0", "65536", "00080", "1", "443"};
+static const char* const PORTS[] = {"", "80", "0", "65536", "00080", "1", "443", "65535", "99999", "4294967296", "99999999999999999999", "2147483648"};
 static const char* const SEGS[] = {"", ".", "..", "a", "b", "b:c", "%2e", "%2E", "%41", "%7E", "%7e", "%3a", "%3A", "x;y", "a=b", "@", ":", "...", ".a", "a.", "~",
     "A", "%2e%2e", ".%2E", "c%2Fd", "%2F", "a%20b", "c", "d", "%61", "a:", ":a", "%C3%A4", "%c3%a4", "-", "_", "a+b", "a,b", "!$&'()*+,;="};
 static const char* const DOTSEGS[] = {"", ".", "..", "a", "b", "b:c", "", ".", "..", "%41", ":", "c", "..", ".", "x:"};
@@ -199,7 +199,7 @@ Str gen_uri(Rng& rng, const UriGenOpts& o) {
         s += "//";
         if (rng.chance(1, 3) || which == 1) { s += which == 1 ? gen_exact_length(rng, special_length(rng)) : PICK(USERS, rng); s += '@'; }
         s += which == 2 ? gen_exact_length(rng, special_length(rng)) : gen_host(rng);
-        if (rng.chance(1, 3)) { s += ':'; s += PICK(PORTS, rng); }
+        if (rng.chance(1, 3)) { s += ':'; if (o.lengths && rng.chance(1, 40)) { Str d(special_length(rng), '0'); for (auto& ch : d) ch = (char)('0' + rng.below(10)); s += d; } else s += PICK(PORTS, rng); }
     }
     int nseg = rng.range(0, o.maxSegs);
     if (o.lengths && rng.chance(1, 60)) nseg = (int)special_length(rng) % 300;     // many segments
